@@ -45,7 +45,10 @@ def gen(g, count):
             continue
         bookfile = g.render_book(book, varied=False)
         k = r.randint(2, 5)
-        blocks = [g.log(book=book, exact=True, days=r.randint(0, 3), unusual=0.1, max_entries=4) for _ in range(k)]
+        long_blocks = r.random() < 0.03
+        if long_blocks:
+            k = 2
+        blocks = [g.log(book=book, exact=True, days=r.randint(0, 3) if not long_blocks else r.choice([120, 150, 300]), unusual=0.1, max_entries=4) for _ in range(k)]
         if r.random() < 0.3 and blocks[0]:
             blocks[1] = list(reversed(blocks[0]))          # a block that differs only in order
         # quantities with two decimals at most, so that printed period figures add up exactly
